@@ -8,7 +8,7 @@ CONSTANTS
   MaxDepth = 4
   W1 = "mid"
   W2 = "mid"
-  W3 = "mid"
+  W3 = "core"
   SlRange = 2
   EmitAst = FALSE
   KnownDeviations = {"filter-on-non-array", "merge-no-override", "operator-before-pipe", "pipe-into-literal", "argument-context-leak", "projection-skips-null", "sort-singleton", "null-vs-reference-equality", "parenthesised-operand", "multiselect-leading-star", "by-key-error-ignored"}
